@@ -202,6 +202,8 @@ class Contract:
                     self.trusted_reason = c.args[0].value if c.args else ""
                 elif f == "use_lemma":
                     self.uses.extend(x.value for x in c.args)
+                elif f == "exhaustive_only":
+                    self.exhaustive_only = True   # native search: only the EXHAUSTIVE generator, no random phase
                 elif f == "abstract_regex":
                     self.abstract_regex = [x.value for x in c.args]
                 elif f == "no_native":
